@@ -102,6 +102,37 @@ _CHAIN = ["fragment Ta on AnchorObj { ...Tb }", "fragment Tb on AnchorObj { ...T
           "fragment Tc on AnchorObj { others(first: $v) { id } }"]
 
 
+# documents parsed without locations / assembled from separately parsed sources (seeded C06-e, fix 5e820aa)
+NL_SDL = ("union U = A | B | C\ntype Query { a: A b: B u: U }\n"
+          "type A { x: Int y: String z: A k: Int }\ntype B { x: String y: String z: B k: String }\n"
+          "type C { x: String y: String z: C k: String }\n")
+_NL = [
+    # 5e820aa: a nested conflict reported on a document without locations (sorted by loc raised TypeError)
+    ("{ a { z { k: x } } a { z { k: y } } }", None),
+    # structurally equal selection sets `{ k }` under different parent types with different return types
+    ("{ u { ... on A { n: z { k } } ... on B { n: z { k } } } }", None),
+    ("{ u { ... on B { n: z { k } } ... on A { n: z { k } } } }", None),
+    ("{ a { k } u { ... on B { n: z { k } } ... on C { n: z { k t: __typename } } } }", None),
+    ("{ u { ... on B { n: z { k } } ... on C { n: z { k t: __typename } } } a { k } }", None),
+    ("{ u { ...FA ...FB } } fragment FA on A { n: z { k } } fragment FB on B { n: z { k } }",
+     ["{ u { ...FA ...FB } }", "fragment FA on A { n: z { k } }", "fragment FB on B { n: z { k } }"]),
+    ("{ u { ...FB ...FA } } fragment FB on B { n: z { k } } fragment FA on A { n: z { k } }",
+     ["{ u { ...FB ...FA } }", "fragment FB on B { n: z { k } }", "fragment FA on A { n: z { k } }"]),
+    ("{ u { ...FB ...FC } a { k } } fragment FB on B { n: z { k } } fragment FC on C { n: z { k } }",
+     ["{ u { ...FB ...FC } a { k } }", "fragment FB on B { n: z { k } }", "fragment FC on C { n: z { k } }"]),
+]
+
+
+def nl_cases():
+    out = []
+    for text, parts in _NL:
+        c = {"kind": "rules", "sdl": NL_SDL, "text": text, "origin": "witness"}
+        if parts:
+            c["parts"] = parts
+        out.append(c)
+    return out
+
+
 def corpus():
     import itertools
     out = [{"kind": "rules", "sdl": WITNESS_SDL, "text": t, "origin": "witness"} for t in _W]
@@ -109,6 +140,7 @@ def corpus():
         for head in ("query Q($v: Int) { anchor(req: 1, inn: {v: 1}, lnn: [1]) { ...Ta } }",
                      "query Q { anchor(req: 1, inn: {v: 1}, lnn: [1]) { ...Ta } }"):
             out.append({"kind": "rules", "sdl": WITNESS_SDL, "text": head + " " + " ".join(perm), "origin": "witness"})
+    out.extend(nl_cases())
     out.append({"kind": "shape", "sdl": WITNESS_SDL, "text": _W[0], "opname": None, "vars": {}, "world": 0, "origin": "witness"})
     for name, defs in gen_valid.variable_position_forms(random.Random(7)):
         if name.startswith("shared"):
@@ -155,6 +187,7 @@ def _exec_cases(rng, schema, sdl, tree, origin, null_bias=False):
 
 def generate(rng, tier):
     quick = tier == "quick"
+    vc.ALT_RULES_ALL = not quick
     n_schemas = 5 if quick else 16
     n_valid = 18 if quick else 40
     n_mut = 14 if quick else 40
@@ -206,7 +239,7 @@ def generate(rng, tier):
             ok.append(c)
         except GraphQLError:
             pass
-    vc.prefetch(ok)
+    vc.prefetch(ok + [c for c in corpus()])
     return ok
 
 
